@@ -60,8 +60,27 @@ func (d Matches) Less(i, j int) bool {
 	if di.StartTokenIndex != dj.StartTokenIndex {
 		return di.StartTokenIndex < dj.StartTokenIndex
 	}
-	// Should never get here, but tiebreak based on the larger license.
-	return di.EndTokenIndex > dj.EndTokenIndex
+	// Tiebreak based on the larger license.
+	if di.EndTokenIndex != dj.EndTokenIndex {
+		return di.EndTokenIndex > dj.EndTokenIndex
+	}
+	// Matches that cover the same tokens with the same confidence (identical
+	// corpus texts, or Copyright matches, which carry no token span) are
+	// ordered by their remaining fields so that the result does not depend on
+	// the iteration order of the corpus map.
+	if di.StartLine != dj.StartLine {
+		return di.StartLine < dj.StartLine
+	}
+	if di.EndLine != dj.EndLine {
+		return di.EndLine < dj.EndLine
+	}
+	if di.MatchType != dj.MatchType {
+		return di.MatchType < dj.MatchType
+	}
+	if di.Name != dj.Name {
+		return di.Name < dj.Name
+	}
+	return di.Variant < dj.Variant
 }
 
 // Match reports instances of the supplied content in the corpus.
